@@ -44,6 +44,7 @@ def main() -> int:
         ctx.stats['modules'] = len(program.modules)
         ctx.stats['classes'] = len(program.classes)
         ctx.stats['functions'] = len(program.all_funcs)
+        ctx.stats['analysed_in_reference_spelling'] = list(program.restored)
         mod.run(ctx, program)
         if ctx.errors:
             for e in ctx.errors:
